@@ -845,6 +845,9 @@ impl Monitor for C18 {
                 let class = if iv > hist { "longer" } else if iv == hist { "equal" } else { "shorter" };
                 r.case(format!("twap|{}|segments={}|overwrite={}", class, (n_in as u32).min(5), self.overwrite_seen));
                 r.count("twap-queries");
+                if n_in > 75 {
+                    r.count("twap-queries-over-windows-with-more-than-75-snapshots");
+                }
                 if twap + 1 < lo || twap > hi + 1 {
                     r.violation(
                         "C18",
